@@ -948,3 +948,6 @@ def _load_benign_patches():
 
 
 _load_benign_patches()
+mut('c19-dict-entry-branch-dropped', ['C19'], M,
+    [("        elif c == '{':\n            x = find_end(i + 1, '{', '}')\n            yield compoundSig[i:x + 1]\n            i = x\n\n", "")], ['C19.D3'],
+    note='with the dict-entry branch gone "{" is yielded as a one-character type')
